@@ -83,6 +83,7 @@ pub fn run_c04(ctx: &Ctx) -> i32 {
         total.merge(r.summary);
     }
     fuzz_stage(ctx, Mode::Load, &mut total, &mut extra);
+    miri_stage(ctx, &mut total, &mut extra);
     total.samples.push(json!({"example_input": "generated base gen0, field f0.c3:cel.layer (index) 0 -> 65535", "isolation": "worker process, 2 MiB case thread, RLIMIT_AS 12 GiB, catch_unwind + panic hook, death attributed to last B line"}));
     finish(
         &Ctx { level: "fault_enumeration", ..ctx.clone() },
@@ -288,6 +289,63 @@ fn fuzz_stage(ctx: &Ctx, mode: Mode, total: &mut Summary, extra: &mut serde_json
         total.inconclusive.push("libFuzzer stage produced no executions (see fuzz log)".into());
     }
     total.merge(t);
+}
+
+/// Thorough tier: the driver runs `c04_miri` shards over a sample of hostile inputs and points us at the logs.
+fn miri_stage(_ctx: &Ctx, total: &mut Summary, extra: &mut serde_json::Map<String, serde_json::Value>) {
+    let dir = match std::env::var("ASEMON_MIRI_LOGS") {
+        Ok(d) => std::path::PathBuf::from(d),
+        Err(_) => return,
+    };
+    let mut inputs = 0u64;
+    let mut shards = 0u64;
+    let mut bad: Vec<String> = Vec::new();
+    if let Ok(rd) = std::fs::read_dir(&dir) {
+        for e in rd.filter_map(|e| e.ok()) {
+            let text = std::fs::read_to_string(e.path()).unwrap_or_default();
+            shards += 1;
+            let done = text.lines().find_map(|l| l.strip_prefix("c04_miri ok inputs=")).and_then(|r| r.split_whitespace().next()).and_then(|n| n.parse::<u64>().ok());
+            if let Some(n) = done {
+                inputs += n;
+            }
+            if text.contains("Undefined Behavior") || text.contains("panicked at") {
+                let first = text.lines().find(|l| l.contains("Undefined Behavior") || l.contains("panicked at")).unwrap_or("").trim().to_string();
+                bad.push(first);
+            } else if done.is_none() {
+                total.inconclusive.push(format!("Miri shard {} did not complete: {}", e.path().display(), text.lines().rev().find(|l| !l.trim().is_empty()).unwrap_or("")));
+            }
+        }
+    }
+    extra.insert("miri_hostile_pass".into(), json!({"shards": shards, "inputs_loaded_under_miri": inputs, "reports": bad.len()}));
+    total.counters.insert("miri_hostile_inputs".into(), inputs);
+    for (k, b) in bad.iter().enumerate() {
+        let mut cr = CaseResult::default();
+        let kind = if b.contains("Undefined Behavior") { "undefined-behaviour" } else { "panic" };
+        cr.violations.push(Violation::new(format!("miri|{}|{}", kind, normalise_digits(b)), format!("Miri reported while loading / walking hostile inputs: {}", b)));
+        total.absorb(4_000_000 + k as u64, cr);
+        total.evaluations -= 1;
+    }
+}
+
+/// Writes a sample of hostile inputs (every `stride`-th derived input of `bases` bases, <= 8 KiB) for the Miri pass.
+pub fn gen_hostile_sample(ctx: &Ctx, args: &[String]) -> i32 {
+    let dir = std::path::PathBuf::from(args.first().cloned().unwrap_or_else(|| "hostile-sample".into()));
+    let bases: u64 = args.get(1).and_then(|x| x.parse().ok()).unwrap_or(4);
+    let stride: usize = args.get(2).and_then(|x| x.parse().ok()).unwrap_or(97);
+    let _ = std::fs::create_dir_all(&dir);
+    let plan = Plan { mode: Mode::Load, seed: ctx.seed, tier: Tier::Quick, generated_bases: bases, corpus: false, size_cap: 8 * 1024 };
+    let mut n = 0;
+    for b in 0..bases {
+        for (k, input) in inputs_of_base(&plan, b, &[]).iter().enumerate() {
+            if k % stride != (b as usize * 13) % stride || input.bytes.len() > 8 * 1024 {
+                continue;
+            }
+            let _ = std::fs::write(dir.join(format!("b{:03}-s{:05}.ase", b, k)), &input.bytes);
+            n += 1;
+        }
+    }
+    println!("wrote {} hostile inputs to {}", n, dir.display());
+    0
 }
 
 /// Writes `n` generated well-formed files (+ the small corpus files) as a libFuzzer seed corpus.
